@@ -15,7 +15,7 @@ import (
 
 func c10Opts(r *mon.RNG, i int) *gram.GenOpts {
 	prof := []int{gram.ProfStateful, gram.ProfStateful, gram.ProfLower, gram.ProfDefault, gram.ProfScanCfg}[i%5]
-	o := &gram.GenOpts{Profile: prof, MaxProds: 4, Budget: 12 + r.Intn(12), Depth: 2 + r.Intn(3), TokKinds: i%3 == 0, Unions: true,
+	o := &gram.GenOpts{Profile: prof, MaxProds: 4, Budget: 12 + r.Intn(12) + (i/90)*6, Depth: 2 + r.Intn(3) + i/150, TokKinds: i%3 == 0, Unions: true,
 		SharePrefix: 7, CaptureBias: 5, SubBias: 3, AllowBang: true}
 	if i%5 == 4 {
 		// second half of the property: the grammar names the elided type explicitly
